@@ -112,6 +112,11 @@ func (b buildSpec) accepts(t *TyDef, opt string, named bool) bool {
 		if tyKind(t.Elem) == "map" || !b.accepts(t.Elem, "", false) {
 			return false
 		}
+		if (refEnc{}).wt(t.Elem, "") == 3 {
+			// slices of slices of length-delimited elements (also behind pointers): whatever the options —
+			// in the protobuf repeated form the inner slices would not even be delimited
+			return false
+		}
 		switch (refEnc{protoArrays: b.protoArrays}).wt(t.Elem, "") {
 		case 0, 2:
 			return true
